@@ -48,6 +48,7 @@ struct MNode {
   bool pre = false; // incomplete right before the executor was called
   bool expect = false; // C31: model says it must be re-run
   bool mark = false;
+  bool throwNow = false; // the body throws GraphThrow in the current execution (set by the main thread before it)
   bool inc = true; // model: incomplete (fresh, marked, or set by setAllNodesIncomplete) until the next execution
 };
 
@@ -57,6 +58,11 @@ extern std::atomic<long> g_inflight, g_maxInflight;
 extern int g_dwellMode; // 0 none, 1 light, 2 heavy
 extern uint32_t g_execSalt;
 void bodyRun(MNode* m);
+
+// the tagged exception thrown by chosen node bodies in a "throwing step"
+struct GraphThrow {
+  int node;
+};
 
 template <size_t Pad>
 struct Body {
@@ -74,16 +80,50 @@ extern const char* const kExecNames[kNumExec];
 
 struct Env {
   dispenso::ThreadPool pool;
-  dispenso::TaskSet ts;
-  dispenso::ConcurrentTaskSet cts;
+  // task sets are replaced after a throwing execution: a task set that captured an exception stays
+  // cancelled (documented task-set behaviour), which is not what the following executions are about
+  std::unique_ptr<dispenso::TaskSet> ts;
+  std::unique_ptr<dispenso::ConcurrentTaskSet> cts;
+  dispenso::TaskCost cost;
+  ssize_t mult;
   dispenso::SingleThreadExecutor ste;
   dispenso::ParallelForExecutor pfe;
   dispenso::ConcurrentTaskSetExecutor cte;
   dispenso::ForwardPropagator fp;
   float lf;
   bool freshExecutors;
-  Env(int threads, dispenso::TaskCost cost, ssize_t mult, float loadFactor, bool fresh)
-      : pool(static_cast<size_t>(threads)), ts(pool, mult), cts(pool, cost, mult), lf(loadFactor), freshExecutors(fresh) {}
+  Env(int threads, dispenso::TaskCost c, ssize_t m, float loadFactor, bool fresh)
+      : pool(static_cast<size_t>(threads)), cost(c), mult(m), lf(loadFactor), freshExecutors(fresh) {
+    newTaskSets();
+  }
+  void newTaskSets() {
+    cts.reset();
+    ts.reset();
+    ts.reset(new dispenso::TaskSet(pool, mult));
+    cts.reset(new dispenso::ConcurrentTaskSet(pool, cost, mult));
+  }
+  // Waits until nothing of an aborted execution is in flight any more and every captured
+  // exception has been handed out; returns how many tagged exceptions wait() rethrew.
+  int drainTaskSets() {
+    int caught = 0;
+    for (int i = 0; i < 8; ++i) {
+      try {
+        ts->wait();
+        break;
+      } catch (const GraphThrow&) {
+        ++caught;
+      }
+    }
+    for (int i = 0; i < 8; ++i) {
+      try {
+        cts->wait();
+        break;
+      } catch (const GraphThrow&) {
+        ++caught;
+      }
+    }
+    return caught;
+  }
 };
 
 struct CaseParams {
@@ -107,6 +147,7 @@ struct CaseParams {
   bool fresh = false;
   bool firstByFP = false;
   bool allowMerge = true; // BiProp edges may join two existing propagation sets
+  bool graphHooks = false; // perturb kGraphAfterNodeRun / kGraphBetweenDependents specifically
   J json() const;
 };
 
